@@ -51,7 +51,10 @@ pub fn check(c: &gen_pp::Case) -> Result<(bool, bool), String> {
             let xb: Vec<Tk> = tokens(tb.text()).into_iter().filter(|t| *t != Tk::Comment).collect();
             if xa != xb {
                 let k = xa.iter().zip(xb.iter()).position(|(p, q)| p != q).unwrap_or(xa.len().min(xb.len()));
-                return Err(format!("non-comment token #{} differs: without strip {:?}, with strip {:?}", k, xa.get(k), xb.get(k)));
+                // D4 duplicates the trailing trivia of a string / escaped identifier (comments and whole directives included); the copy is verbatim in
+                // both modes but the second pass over it is not, so the token sequences can differ as well
+                let d4 = crate::c06::scan_class(ta.text()).1;
+                return Err(format!("non-comment token #{} differs: without strip {:?}, with strip {:?}{}", k, xa.get(k), xb.get(k), if d4 { " [unstripped output has a string / escaped identifier directly followed by trivia]" } else { "" }));
             }
             let sa = defines_str(&da, false, true); let sb = defines_str(&db, false, true);
             if sa != sb { return Err("define tables differ between strip_comments on and off".into()); }
@@ -105,7 +108,7 @@ pub fn main(args: &[String]) {
                 let strlike = c.files.iter().any(|f| f.1.as_ref().map_or(false, |t| crate::c06::scan_class(t).1))
                     || c.defines.iter().any(|d| d.1.as_ref().and_then(|x| x.1.as_ref()).map_or(false, |t| crate::c06::scan_class(t).1));
                 let all: String = c.files.iter().map(|f| format!("--- {}\n{}\n", f.0, f.1.clone().unwrap_or_else(|| "<not utf-8>".into()))).collect();
-                if m.contains("survives") && (strlike || m.contains("directly followed by trivia")) { rep.known("strlit-trailing-trivia", &m, &top, ""); } else { rep.violation(&m, &all, &format!("top={} incpaths={:?} defines={:?} ignore={}", c.top, c.incpaths, c.defines, c.ignore)); } }
+                if (m.contains("survives") || m.contains("token #")) && (strlike || m.contains("directly followed by trivia")) { rep.known("strlit-trailing-trivia", &m, &top, ""); } else { rep.violation(&m, &all, &format!("top={} incpaths={:?} defines={:?} ignore={}", c.top, c.incpaths, c.defines, c.ignore)); } }
         }
     }
     rep.write(out);
